@@ -38,8 +38,17 @@ pub struct MiriOutcome {
 fn spawn(job: &MiriJob, log: &Path) -> std::io::Result<std::process::Child> {
    // `tenants` runs two instances at once: the unsynchronised `static mut` timing counters of
    // ascent::internal would stop Miri at once, so that scenario runs without the race detector
-   let extra = if job.scenario == "tenants" { " -Zmiri-disable-data-race-detector" } else { "" };
-   let flags = format!("-Zmiri-many-seeds={}..{} {}{}", job.miri_seed_from, job.miri_seed_to, FLAGS, extra);
+   // `shared-pool` runs several instances on one pool: there the unsynchronised counters collide so
+   // often that the aliasing model has to be off as well; that scenario looks for deadlocks, panics
+   // and wrong results only.
+   let flags = match job.scenario.as_str() {
+      "tenants" => format!("-Zmiri-many-seeds={}..{} {} -Zmiri-disable-data-race-detector", job.miri_seed_from, job.miri_seed_to, FLAGS),
+      "shared-pool" => format!(
+         "-Zmiri-many-seeds={}..{} -Zmiri-ignore-leaks -Zmiri-preemption-rate=0.05 -Zmiri-permissive-provenance -Zmiri-disable-data-race-detector -Zmiri-disable-stacked-borrows",
+         job.miri_seed_from, job.miri_seed_to
+      ),
+      _ => format!("-Zmiri-many-seeds={}..{} {}", job.miri_seed_from, job.miri_seed_to, FLAGS),
+   };
    let out = std::fs::File::create(log)?;
    let err = out.try_clone()?;
    Command::new("cargo")
@@ -67,6 +76,11 @@ fn parse(log: &Path, wall_s: f64) -> MiriOutcome {
          break;
       }
       if l.starts_with("error: Undefined Behavior") || l.starts_with("error: unsupported operation") || l.starts_with("error: deadlock") || l.starts_with("error: the evaluated program") {
+         if l.contains("deadlocked") {
+            class = Some("deadlock".to_string());
+            detail = "Miri: the evaluated program deadlocked".to_string();
+            break;
+         }
          // location: the next "-->" line
          let loc = lines[i + 1..].iter().take(4).find(|x| x.trim_start().starts_with("-->")).map(|x| x.trim().trim_start_matches("--> ").to_string()).unwrap_or_default();
          let file_line = loc.rsplitn(2, ':').nth(1).unwrap_or(&loc).to_string();
@@ -120,8 +134,8 @@ pub fn jobs(check: &str, thorough: bool, seed: u64) -> Vec<MiriJob> {
       ("C05", true) => vec![("tc", 6, 16), ("index", 4, 16)],
       ("C19", false) => vec![("index", 2, 4)],
       ("C19", true) => vec![("index", 12, 16)],
-      ("C20", false) => vec![("tc-pools", 1, 4), ("tenants", 1, 4)],
-      ("C20", true) => vec![("tc-pools", 8, 16), ("tenants", 6, 16)],
+      ("C20", false) => vec![("tc-pools", 1, 4), ("tenants", 1, 4), ("shared-pool", 2, 4)],
+      ("C20", true) => vec![("tc-pools", 8, 16), ("tenants", 6, 16), ("shared-pool", 8, 16)],
       _ => vec![],
    };
    let mut v = vec![];
